@@ -3,6 +3,7 @@
 // errors and may re-enter the dispatcher.  Reply-id reservation runs on its own
 // command array.  Allocation failures are attached to operations.
 #include "worlds/common.hpp"
+#include <type_traits>
 
 using namespace sim;
 using namespace mpt;
@@ -20,6 +21,10 @@ struct Rec {
 	int ret = 0; int set_id = -1;      // value to store in ev->id before returning (-1: leave)
 	int reenter = 0; uintptr_t reenter_id = 0; // 1: register a new record for reenter_id, 2: clear reenter_id
 };
+template <typename T> static bool try_copy(T &from) {
+	if constexpr (std::is_copy_constructible<T>::value) { Sut s; T c(from); (void) c; return true; }
+	else return false;
+}
 struct DWorld;
 static DWorld *W;
 
@@ -410,7 +415,16 @@ struct DWorld : World {
 				reserved.erase(it); outcome = 1;
 				break;
 			}
-			case OP_SET_ERR: {
+			case OP_SET_ERR: if ((op.c % 9) == 4) {
+				// C++ value semantics: where a dispatcher or one of its command elements can be copied at all, the copy (and its going away) is
+				// nobody's end of life - every registration stays registered, is told nothing, and keeps receiving its events
+				bool cmdcopy = (op.c / 9) % 2 && !live.empty(); bool did;
+				if (cmdcopy) { command *c; { Sut s; c = mpt_command_get(D, live.begin()->first); } did = c && try_copy(*c); }
+				else did = try_copy(*D);
+				log.ev("CXX_COPY of %s%s", cmdcopy ? "a command element" : "the dispatcher", did ? "" : " (type cannot be copied)");
+				st.hit(did ? "probe:cxx_dispatch_copied" : "probe:cxx_dispatch_not_copyable");
+				outcome = did; break;
+			} else {
 				Rec *r = new_rec(0, op.b, true); if (r->reenter != 3) r->reenter = 0;      // (a fallback handler may emit from its end-of-life notification, nothing else)
 				Rec *old = fallback;
 				r->registered = true;      // (before the call: the old handler's end-of-life notification may emit, and the event then belongs to the new one)
